@@ -981,7 +981,7 @@ async fn settle_once(l: &mut Live) -> Result<Option<Settled>, String> {
     let tgt_tap = l.tgt().tap.clone();
     // a server pinned before Connected that an injected record has (unexpectedly) connected: its peer finishes
     // on the server's final flight and can then emit application sentinels
-    if !l.target_is_client && l.phase != Phase::Connected && l.phase != Phase::Closed && l.tgt().state() != "Handshaking" {
+    if !l.target_is_client && l.phase != Phase::Connected && l.phase != Phase::Closed && l.tgt().state() == "Connected" {
         let p = l.peer().dtls.clone();
         let taps = [l.pair.c.tap.clone()];
         for _ in 0..5 {
@@ -996,8 +996,9 @@ async fn settle_once(l: &mut Live) -> Result<Option<Settled>, String> {
         }
     }
     let tstate = l.tgt().state();
+    let pinned_server = !l.target_is_client && (l.phase == Phase::NoKeys || l.phase == Phase::KeysPending);
     let can_app_sentinel = l.peer().keys().is_some()
-        && (tstate != "Handshaking" || (l.phase == Phase::KeysPending && l.target_is_client));
+        && if pinned_server { tstate == "Connected" } else { l.phase != Phase::NoKeys };
     if can_app_sentinel {
         l.sentinel_ctr += 1;
         let mut s = b"SENTINEL".to_vec();
@@ -1036,7 +1037,8 @@ async fn settle_once(l: &mut Live) -> Result<Option<Settled>, String> {
             let want = c0 + 3 * l.flight;
             let runner_done = || l.pair.s.runner.is_finished();
             let sd = l.pair.s.dtls.clone();
-            let left_hs = || state_name(&sd.get_state()) != "Handshaking";
+            // (a server closed/failed by a pre-key alert still answers duplicate ClientHellos: only Connected matters)
+            let left_hs = || state_name(&sd.get_state()) == "Connected";
             // a round that takes longer than 1.8 s is not accepted anyway
             let ok = wait_until(&[&ctap, &tgt_tap], Duration::from_secs(2), || ctap.from_peer.load(Ordering::SeqCst) >= want || runner_done() || left_hs()).await;
             if left_hs() && !runner_done() {
